@@ -21,6 +21,7 @@ func propC15(r *Report, tier string) {
 	ruleSnapshotReaders(r, "K7-snapshot-readers")
 	ruleTreapItemsImmutable(r, "K6-treap-items-immutable")
 	ruleMossBufAccounting(r, "K12-moss-buffer-accounting")
+	ruleKVGetCopyKeepsEmptyValues(r, "K12-get-copy-keeps-empty-values")
 	ruleErrorsLookedAt(r, "Kerr-errors-looked-at", func(rel string) bool { return strings.HasPrefix(rel, storeBase) || rel == "index/upsidedown" }, errAllowStores)
 	ruleSuccessorKeepsIncrementedByte(r, "K8-prefix-successor", func(rel string) bool { return strings.HasPrefix(rel, storeBase) }, 1)
 	k1Locks(r, "K1-lock-pairing", func(rel string) bool { return strings.HasPrefix(rel, storeBase) })
